@@ -24,6 +24,9 @@ def main(ctx):
     # 50-pixel processing blocks of the bilateral filter
     J.append({'mod': MOD, 'fn': 'bilateral_blocks', 'mode': 'sym', 'args': {'axis': 1, 'N': 53, 'lo': 47, 'hi': 53, 'cap': cap}})
     J.append({'mod': MOD, 'fn': 'bilateral_blocks', 'mode': 'sym', 'args': {'axis': 0, 'N': 52, 'lo': 46, 'hi': 52, 'cap': cap}})
+    # a whole leading block without valid pixels, then two more blocks
+    J.append({'mod': MOD, 'fn': 'bilateral_blocks', 'mode': 'sym', 'args': {'axis': 1, 'N': 104, 'lo': 98, 'hi': 104, 'invalid_upto': 52, 'cap': cap}})
+    J.append({'mod': MOD, 'fn': 'bilateral_blocks', 'mode': 'sym', 'args': {'axis': 0, 'N': 104, 'lo': 49, 'hi': 55, 'invalid_upto': 48, 'cap': cap}})
     if not ctx.quick:
         J.append({'mod': MOD, 'fn': 'bilateral', 'mode': 'sym', 'args': {'value': True, 'conc_mask': 'random', 'R': 5, 'C': 5, 'sigma_space': 1.4, 'seed': ctx.seed + 1, 'cap': 300}})
         J.append({'mod': MOD, 'fn': 'bilateral_blocks', 'mode': 'sym', 'args': {'axis': 1, 'N': 103, 'lo': 97, 'hi': 103, 'cap': cap}})
